@@ -763,7 +763,7 @@ func (fr *frame) loadPtr(T types.Type, p value) value {
 			in.rtPanic("invalid memory address or nil pointer dereference")
 		}
 		if in.hb != nil {
-			in.hb.onRead(in, p)
+			in.hbReadDeep(T, p)
 		}
 		return load(T, p)
 	case symptr:
@@ -1426,3 +1426,26 @@ func checkInterface(itype *types.Interface, x iface) string {
 }
 
 var _ = math.Abs
+
+// hbReadDeep records a read of every leaf cell of the value of type T at p.
+func (in *interpreter) hbReadDeep(T types.Type, p *value) {
+	switch T := T.Underlying().(type) {
+	case *types.Struct:
+		if sv, ok := (*p).(structure); ok {
+			for i := range sv {
+				in.hbReadDeep(T.Field(i).Type(), &sv[i])
+			}
+			return
+		}
+	case *types.Array:
+		if av, ok := (*p).(array); ok {
+			for i := range av {
+				if av[i] != nil {
+					in.hbReadDeep(T.Elem(), &av[i])
+				}
+			}
+			return
+		}
+	}
+	in.hb.onRead(in, p)
+}
